@@ -29,6 +29,15 @@
  *   E nullcls <tid> <cls>              type_instance(T, NULL) / type_implements(T, NULL) (the class token is ignored); executed only when
  *                                      the record has an un-memoised triple or no triple at all (otherwise the code reads through NULL: `ub`)
  *   H <tid> <nthreads> <rounds> <cls>… threads doing first lookups on cold caches, repeatedly
+ *   U <tid> <nthreads> <rounds> <seed> <cls>…   threaded stress on COLD COPIES of the record of tid (library type, static probe or run-time type: the
+ *                                      copy of a run-time type's record with cache and cls words NULL is word for word what Type_New builds): every
+ *                                      round a fresh copy, the expected answer of every class taken BEFORE the threads start by a raw by-name scan
+ *                                      of the copy's declaration list; the threads are released together by a spinning barrier, each starts with a
+ *                                      DIFFERENT class and walks all of them by type_instance / type_implements / type_method (or
+ *                                      type_implements_method); afterwards the main thread alone repeats every lookup on the now warm copy and checks
+ *                                      the cache and cls words.  The original record is not touched.  `I stress rounds=… overlapping=…` counts the
+ *                                      rounds in which the lookup phases of at least two threads really overlapped in time (monotonic clock).
+ *   e <tid> <cls> <k>                  type_method_at_offset(T, cls, k*sizeof(var), "member<k>") and the TEXT of the ClassError: `e <result> | <exception>: <message>`
  *   D <tid>                            dump
  *   N <tid> heap <name> <size> row…    new_raw_with(Type, …) while the harness serves Type_Alloc's calloc from a LIFO pool of blocks (link-time
  *                                      --wrap=calloc/free; a freed block is poisoned for ASan until it is handed out again): after `X` of a
@@ -541,6 +550,74 @@ static void* thread_main(void* p) {
   return NULL;
 }
 
+/* ---- threaded stress on cold copies (op U) ---- */
+#include <sched.h>
+#include <time.h>
+typedef struct { volatile int count; volatile int sense; int n; } SpinBar;
+static void spin_wait(SpinBar* b, int* local) {
+  *local = !*local;
+  if (__atomic_add_fetch(&b->count, 1, __ATOMIC_ACQ_REL) == b->n) { __atomic_store_n(&b->count, 0, __ATOMIC_RELAXED); __atomic_store_n(&b->sense, *local, __ATOMIC_RELEASE); }
+  else { int spins = 0; while (__atomic_load_n(&b->sense, __ATOMIC_ACQUIRE) != *local) { if (++spins > 4000) { sched_yield(); spins = 0; } } }
+}
+static long long mono_ns(void) { struct timespec ts; clock_gettime(CLOCK_MONOTONIC, &ts); return (long long)ts.tv_sec * 1000000000LL + ts.tv_nsec; }
+typedef struct { int thread, round, cls, route; var got; } UBad;
+typedef struct {
+  int nth, rounds, nc; unsigned seed; var* cls;
+  var volatile* copy;            /* the cold copy of this round */
+  var* want; int* wm0;            /* per class: the raw by-name answer, member 0 non-NULL */
+  SpinBar go, done; volatile int quit;
+  long long* t0; long long* t1;   /* per thread: the lookup phase of this round */
+  long* bad; UBad* first;         /* per thread */
+  volatile int round; volatile int reported; size_t line; const char* tname;
+} UShared;
+typedef struct { UShared* u; int id; } UArg;
+static unsigned u_mix(unsigned x) { x ^= x >> 16; x *= 0x7feb352dU; x ^= x >> 15; x *= 0x846ca68bU; x ^= x >> 16; return x; }
+static pthread_mutex_t stress_mx = PTHREAD_MUTEX_INITIALIZER;
+/* the first wrong answer of an op is reported at once, from the thread that saw it (a wrong NULL makes type_method raise, and an
+   exception in a foreign thread ends the process) */
+static void stress_report(UShared* u, UBad* f, var C) {
+  pthread_mutex_lock(&stress_mx);
+  if (!u->reported) {
+    u->reported = 1; const char* other = NULL;
+    for (int c = 0; c < u->nc; c++) if (f->route != 1 && f->got && f->got == u->want[c] && c != f->cls) { other = raw_name(u->cls[c]); break; }
+    static const char* rn[3] = { "type_instance", "type_implements", "type_method/type_implements_method" };
+    int isptr = f->route == 0 || (f->route == 2 && f->got != (var)1 && f->got != NULL) || (f->route == 2 && u->want[f->cls] && u->wm0[f->cls]);
+    X("sig=disp-thread-stress line=%zu what=round %d, %d threads on a cold copy of %s: thread %d asked %s for class %s and got %s%s%s; the declaration's first triple of that name is %d (declaration scanned by name before the threads started)",
+      u->line, f->round, u->nth, u->tname, f->thread, rn[f->route], raw_name(u->cls[f->cls]),
+      isptr ? (f->got ? (raw_index(C, f->got) >= 0 ? "the instance of another triple" : "an instance the type does not declare") : "NULL") : (f->got ? "true" : "false"),
+      other ? ", which is what the type declares for class " : "", other ? other : "", raw_index(C, u->want[f->cls]));
+    fflush(vout);
+  }
+  pthread_mutex_unlock(&stress_mx);
+}
+static void* stress_main(void* p) {
+  UArg* a = p; UShared* u = a->u; int sg = 0, sd = 0; int j = a->id;
+  for (;;) {
+    spin_wait(&u->go, &sg);
+    if (u->quit) break;
+    var T = *u->copy; int r = u->round; int nc = u->nc;
+    /* every thread starts with a different class (as long as there are at least as many classes as threads) */
+    unsigned start = (u_mix(u->seed + 977u * (unsigned)r) + (unsigned)j * (unsigned)(nc / u->nth > 0 ? nc / u->nth : 1)) % (unsigned)nc;
+    unsigned stride = 1; if (nc > 2) { stride = 1 + u_mix(u->seed ^ (unsigned)(r * 31 + 7)) % (unsigned)(nc - 1); while (nc % stride == 0 && stride > 1) stride--; }
+    long long t0 = mono_ns();
+    for (int s = 0; s < nc; s++) {
+      int c = (int)((start + (unsigned)s * stride) % (unsigned)nc);
+      for (int q = 0; q < 3; q++) {
+        int route = (q + j + s) % 3; var got = NULL; int ok = 1;
+        if (route == 0) { got = type_instance(T, u->cls[c]); ok = got == u->want[c]; }
+        else if (route == 1) { bool b = type_implements(T, u->cls[c]); got = b ? (var)1 : NULL; ok = b == (u->want[c] != NULL); }
+        else if (u->want[c] && u->wm0[c]) { got = type_method_at_offset(T, u->cls[c], 0, "m0"); ok = got == u->want[c]; }
+        else { bool b = type_implements_method_at_offset(T, u->cls[c], 0); got = b ? (var)1 : NULL; ok = b == (u->want[c] != NULL && u->wm0[c]); }
+        if (!ok) { if (!u->bad[j]) { u->first[j] = (UBad){ j, r, c, route, got }; stress_report(u, &u->first[j], T); } u->bad[j]++; }
+      }
+    }
+    u->t0[j] = t0; u->t1[j] = mono_ns();
+    spin_wait(&u->done, &sd);
+  }
+  return NULL;
+}
+static long stress_rounds = 0, stress_overlap = 0, stress_ops = 0; static int stress_maxpar = 0;
+
 int main(int argc, char** argv) {
   var volatile gcslots[MAXGC]; for (int g = 0; g < MAXGC; g++) gcslots[g] = NULL;
   gckeep = (var*)gcslots;
@@ -954,6 +1031,95 @@ int main(int argc, char** argv) {
       check_inv(h, line); nlook += tdone;
       free(pt); free(ta); free(cls); free(want); free(wm0);
     } break;
+    case 'e': {
+      /* e <tid> <cls> <k>: type_method_at_offset(T, cls, k*sizeof(var), "member<k>") and the TEXT of the ClassError it raises */
+      if (nt != 4) { O("bad-op"); break; }
+      int tid = atoi(tok[1]); if (tid < 0 || tid >= MAXT || !th[tid].kind) { O("bad-op"); break; }
+      var cls = resolve_cls(tok[2]); if (!cls) { O("bad-op"); break; }
+      int k = atoi(tok[3]); if (k < 0 || k >= CELLW || strspn(tok[3], "0123456789") != strlen(tok[3])) { O("bad-op"); break; }
+      TH* h = &th[tid]; var T = h->type;
+      int er = row_first_for(h, cls);
+      if (er >= 0 && (size_t)k >= strlen(h->rflags[er])) { O("bad-op"); break; }
+      if (borrowed_territory(h, cls) || is_changed(cls)) { O("bad-op"); break; }
+      char mname[32]; snprintf(mname, sizeof mname, "member%d", k);
+      var got = NULL; long inv0 = invoked; static char msg[1024]; msg[0] = 0;
+      V_TRY(exc, got = type_method_at_offset(T, cls, (size_t)k * sizeof(var), mname));
+      fmt_res(rb, sizeof rb, T, exc, got);
+      if (exc) snprintf(msg, sizeof msg, "%s: %s", v_exc_name(exc), c_str(((struct Exception*)current(Exception))->msg)); else snprintf(msg, sizeof msg, "-");
+      /* the oracle: the documented texts, with the names the type and the class were GIVEN */
+      static char want[1024];
+      if (er < 0) snprintf(want, sizeof want, "ClassError: Type '%s' does not implement class '%s'", decl_name(T), decl_name(cls));
+      else if (!row_member(h, er, k)) snprintf(want, sizeof want, "ClassError: Type '%s' implements class '%s' but not the method '%s' required", decl_name(T), decl_name(cls), mname);
+      else snprintf(want, sizeof want, "-");
+      if (strcmp(msg, want) != 0) X("sig=disp-classerror-text line=%zu what=type_method_at_offset(%s, %s, member %d) reported `%s`, expected `%s`", line, decl_name(T), tok[2], k, msg, want);
+      if (!exc && raw_index(T, got) != er) X("sig=disp-method-decl line=%zu what=type_method_at_offset(%s, %s, member %d) gave %s, the declaration's first triple of that class is %d", line, decl_name(T), tok[2], k, rb, er);
+      if (invoked != inv0) X("sig=disp-invoked line=%zu what=a member function was called by a lookup", line);
+      O("e %s | %s%s", rb, msg, dump(h, 1)); check_inv(h, line); nlook++;
+    } break;
+    case 'U': {
+      if (nt < 6) { O("bad-op"); break; }
+      int tid = atoi(tok[1]), nth = atoi(tok[2]), rounds = atoi(tok[3]); unsigned seed = (unsigned)strtoul(tok[4], NULL, 10);
+      if (tid < 0 || tid >= MAXT || !th[tid].kind || nth < 2 || nth > 64 || rounds < 1 || rounds > 100000) { O("bad-op"); break; }
+      TH* h = &th[tid]; int nc = nt - 5; var* cls = calloc(nc, sizeof(var)); int badtok = 0;
+      for (int c = 0; c < nc; c++) { cls[c] = resolve_cls(tok[5 + c]); if (!cls[c]) badtok = 1; }
+      if (badtok || row_dirty(h)) { free(cls); O("bad-op"); break; }
+      int n = raw_count(h->type); size_t cells = (size_t)RAW_FIRST + n + 1;
+      UShared u; memset(&u, 0, sizeof u);
+      var volatile copy = NULL;
+      u.nth = nth; u.rounds = rounds; u.nc = nc; u.seed = seed; u.cls = cls; u.copy = &copy;
+      u.want = calloc(nc, sizeof(var)); u.wm0 = calloc(nc, sizeof(int));
+      u.t0 = calloc(nth, sizeof(long long)); u.t1 = calloc(nth, sizeof(long long)); u.bad = calloc(nth, sizeof(long)); u.first = calloc(nth, sizeof(UBad));
+      u.go.n = nth + 1; u.done.n = nth + 1; u.line = line; u.tname = raw_name(h->type);
+      pthread_t* pt = calloc(nth, sizeof(pthread_t)); UArg* ua = calloc(nth, sizeof(UArg));
+      for (int j = 0; j < nth; j++) { ua[j] = (UArg){ &u, j }; pthread_create(&pt[j], NULL, stress_main, &ua[j]); }
+      int sg = 0, sd = 0; long tbad = 0, warmbad = 0, ovl = 0; char wfirst[256]; wfirst[0] = 0;
+      for (int r = 0; r < rounds; r++) {
+        /* a cold copy: header (type word NULL in odd rounds, as a statically declared type starts), cache words and cls words NULL */
+        struct Header* head = malloc(sizeof(struct Header) + sizeof(struct Type) * cells);
+        var C = header_init(head, Type, AllocStatic);
+        memcpy(C, h->type, sizeof(struct Type) * cells);
+        white_reset(C);
+        if (r & 1) head->type = NULL;
+        for (int c = 0; c < nc; c++) { u.want[c] = raw_scan_name(C, raw_name(cls[c])); u.wm0[c] = u.want[c] && ((var*)u.want[c])[0] != NULL; }
+        copy = C; u.round = r;
+        spin_wait(&u.go, &sg);
+        spin_wait(&u.done, &sd);
+        /* did the lookup phases of two threads overlap in time? */
+        int par = 0;
+        for (int a = 0; a < nth; a++) { int k = 0; for (int b = 0; b < nth; b++) if (u.t0[b] <= u.t0[a] && u.t0[a] < u.t1[b]) k++; if (k > par) par = k; }
+        if (par >= 2) ovl++; if (par > stress_maxpar) stress_maxpar = par;
+        /* warm, single-threaded: every lookup again, then the words of the copy */
+        for (int c = 0; c < nc; c++) {
+          var got = type_instance(C, cls[c]); bool b = type_implements(C, cls[c]);
+          if (got != u.want[c] || b != (u.want[c] != NULL)) {
+            if (!warmbad) snprintf(wfirst, sizeof wfirst, "round %d: type_instance(%s, %s) gave triple %d and type_implements %d afterwards, from one thread on the warm record; the declaration's first triple of that name is %d", r, raw_name(h->type), raw_name(cls[c]), raw_index(C, got), (int)b, raw_index(C, u.want[c]));
+            warmbad++;
+          }
+        }
+        for (int g = 0; g < ngslot; g++) {
+          if (gslot[g].idx >= RAW_CACHE_WORDS) continue;
+          var w = ((var*)C)[gslot[g].idx];
+          if (w && w != raw_scan_name(C, gslot[g].name)) { if (!warmbad) snprintf(wfirst, sizeof wfirst, "round %d: cache word %d of the copy of %s holds triple %d, the declared %s instance is triple %d", r, gslot[g].idx, raw_name(h->type), raw_index(C, w), gslot[g].name, raw_index(C, raw_scan_name(C, gslot[g].name))); warmbad++; }
+        }
+        for (struct Type* t = raw_first(C); t->name; t++) {
+          if (!t->cls) continue;
+          if (strcmp(raw_name(t->cls), (const char*)t->name) != 0 || raw_scan_name(C, (const char*)t->name) != t->inst) {
+            if (!warmbad) snprintf(wfirst, sizeof wfirst, "round %d: triple %d (%s) of the copy of %s memoises class %s", r, (int)(t - raw_first(C)), (char*)t->name, raw_name(h->type), raw_name(t->cls));
+            warmbad++;
+          }
+        }
+        for (int j = 0; j < nth; j++) { tbad += u.bad[j]; u.bad[j] = 0; }
+        if (warmbad && wfirst[0]) { X("sig=disp-thread-stress-warm line=%zu what=%s", line, wfirst); wfirst[0] = 0; }
+        copy = NULL; free(head);
+      }
+      u.quit = 1; spin_wait(&u.go, &sg);
+      for (int j = 0; j < nth; j++) pthread_join(pt[j], NULL);
+      stress_rounds += rounds; stress_overlap += ovl; stress_ops++;
+      long total = (long)nth * rounds * nc * 3;
+      O("U n=%ld bad=%ld warm=%ld", total, tbad, warmbad);
+      nlook += total;
+      free(pt); free(ua); free(cls); free(u.want); free(u.wm0); free(u.t0); free(u.t1); free(u.bad); free(u.first);
+    } break;
     case 'Z': {
       if (nt != 3 || strspn(tok[1], "0123456789") != strlen(tok[1]) || strlen(tok[2]) >= NBUFW) { O("bad-op"); break; }
       int b = atoi(tok[1]); if (b < 0 || b >= NBUF) { O("bad-op"); break; }
@@ -980,6 +1146,7 @@ int main(int argc, char** argv) {
     }
   }
   I("ops=%zu lookups=%zu", nops, nlook);
+  I("stress ops=%ld rounds=%ld overlapping=%ld max-parallel=%d", stress_ops, stress_rounds, stress_overlap, stress_maxpar);
   I("heap=%ld after-free=%ld recycled=%ld just-freed=%ld", n_heap, n_heap_after_free, n_recycled, n_just_freed);
   return 0;
 }
